@@ -315,6 +315,10 @@ def find_blocked_reactions(
         reaction_list = solution.fluxes[
             solution.fluxes.abs() < zero_cutoff
         ].index.tolist()
+        # Blockedness is a property of the flux space alone: with the current
+        # objective in place, FVA at fraction 0 would still require
+        # `objective >= 0` (or `<= 0` when minimizing).
+        model.objective = Zero
         # Run FVA to find reactions where both the minimal and maximal flux
         # are zero (below the cut off).
         flux_span = flux_variability_analysis(
